@@ -41,7 +41,7 @@ LEVEL_TEXT = ('The body/status/content-type/scheme product and every listed faul
               'sampled at depth; the recorded request is checked on every call. Fault enumeration is the level: the property is '
               'about what happens for each reply and each transport failure.')
 LEVEL_NOTE = 'trusted: requests_mock as the transport; the request decoder in the harness'
-PLAN = {'quick': dict(shards=4, wall=70), 'thorough': dict(shards=16, wall=400)}
+PLAN = {'quick': dict(shards=4, wall=120), 'thorough': dict(shards=16, wall=400)}
 MIN = {'overlapping_evaluations': 200, 'evaluations': 800, 'requests_recorded': 500, 'deny_bodies': 300, 'allow_bodies': 50, 'faults_injected': 100,
        'tls_file_faults': 20, 'content_type_changes_on_living_enforcer': 100, 'requests_under_debug_logging': 200, 'nested_opaque_targets': 50,
        'sequence_calls': 400, 'sequence_tls_file_missing_after_a_sent_request': 60, 'sequence_clean_call_after_a_fault': 100,
